@@ -10,7 +10,7 @@ META = {
                  "over templates of every core form with uniquely named variables and unpacking forms in every slot",
     "level_text": "C11_*_keeps_every_argument: for every argument list (any length, any mix of forms, #*, #**, keywords) the "
                   "display / call / dict node holds each argument exactly as often as it occurs, or compilation is an error "
-                  "(C11_unplaceable_is_an_error: #** outside a dict display or call; odd dict). The model is compared with "
+                  "(C11_unplaceable_is_an_error: #** outside a dict display or call; odd dict); C11_display/dict_keeps_source_order: the slots hold the forms in source order. The model is compared with "
                   "hy_compile on generated lists; on the real compiler every evaluated slot of ~60 templates of core forms "
                   "is filled with a unique variable / unpacking and must appear in the compiled code or give a Hy error. "
                   "Partial: handlers other than displays/calls/dicts are covered by the oracle only; 'evaluated when control "
